@@ -326,7 +326,7 @@ pub fn jobs_for(prop: &str, thorough: bool) -> Vec<Job> {
                     swp.merges = true;
                     js.push(job(s, "observer sweep along adversarial FIFO extensions", c, Some(swp), 800));
                     js.push(template_job(s, mon::CTX, Delivery::Fifo, !MAPS.contains(&s), 300));
-                    let mut t = template_job(s, mon::CTX, Delivery::Causal, !MAPS.contains(&s), 600);
+                    let mut t = template_job(s, mon::CTX, Delivery::Causal, !MAPS.contains(&s), 4000);
                     t.cfg.merges = true;
                     t.label = "conflict template with state merges between the authors, every delivery order";
                     js.push(t);
